@@ -2727,7 +2727,11 @@ impl Compiler {
                     }
                 }
                 _ => {
-                    let max_batch_size = self.frame().available_registers_count() as usize;
+                    // Only half of the available registers are used for a batch, the elements
+                    // might need temporary registers themselves (e.g. nested sequences).
+                    // With no registers left the batch size of 1 leads to a register overflow error.
+                    let max_batch_size =
+                        (self.frame().available_registers_count() as usize / 2).max(1);
                     for elements_batch in elements.chunks(max_batch_size) {
                         let stack_count = self.stack_count();
                         let start_register = self.frame().next_temporary_register();
